@@ -28,6 +28,8 @@ func c08(c *Check) {
 		c.Req(sh == want, "C08/slot-path-shape", "host."+name, fn.Pos(), sh, "path shape is "+sh+", required "+want)
 	}
 
+	c.Rule("C08/no-swallowed-panic", "no function of the two EVM light clients defers a recover() that lets it return normally after a panic: a verifier that panics on a malformed proof must not turn that into a nil error", 1)
+	noSwallowedPanic(c, "C08/no-swallowed-panic", fnsInPackages(c, "/light-clients/eth/types", "/light-clients/bsc/types"))
 	c.Rule("C08/sibling-agreement", "the ETH and BSC copies of the proof verifier have identical canonical guard sets (a check dropped or loosened in one copy only is a contradiction)", 5)
 	for _, f := range []string{"produceVerificationArgs", "ClientState.VerifyPacketCommitment", "ClientState.VerifyPacketAcknowledgement", "verifyMerkleProof", "checkProofResult"} {
 		ge := guardStrings(c, ethT+f, "eth/types")
